@@ -1,0 +1,5 @@
+//go:build !verif
+
+package plenccodec
+
+func verifYield(string) {}
